@@ -3,6 +3,7 @@
 import re
 blind3=set("C02e C02f C03e C06e C06f C07e C09f C11e C11f C12e C14e C15f C16f C17e C19e C20f".split())
 blind4=set("C02h C03g C03h C04h C11g C11h C12h C13h C15g C16g C16h".split())
+blind5=set("C01i C01j C02i C02j C03i C03j C06i C06j C09j C10i C11i C11j C15i C16i C17i C17j C18j C19i C19j C20j".split())
 def table(vs,blind,extra=()):
     rows={}
     for l in open('/verif/seeded/REPORT.md'):
@@ -17,7 +18,9 @@ def table(vs,blind,extra=()):
 s=open('/verif/DESIGN.md').read()
 t3=table('ef',blind3,["| C12‑f | early dust fail-back of StateDefault restricted to our own broadcast | (obsolete since b3aa835, `seeded-obsolete/`) | S |"])
 t4=table('gh',blind4)
+t5=table('ij',blind5)
 s=re.sub(r'<!-- GEN:round3 -->.*?<!-- /GEN:round3 -->',lambda m:'<!-- GEN:round3 -->\n'+"\n".join(t3)+'\n<!-- /GEN:round3 -->',s,flags=re.S)
 s=re.sub(r'<!-- GEN:round4 -->.*?<!-- /GEN:round4 -->',lambda m:'<!-- GEN:round4 -->\n'+"\n".join(t4)+'\n<!-- /GEN:round4 -->',s,flags=re.S)
+s=re.sub(r'<!-- GEN:round5 -->.*?<!-- /GEN:round5 -->',lambda m:'<!-- GEN:round5 -->\n'+"\n".join(t5)+'\n<!-- /GEN:round5 -->',s,flags=re.S)
 open('/verif/DESIGN.md','w').write(s)
-print(len(t3)-2,len(t4)-2,'rows')
+print(len(t3)-2,len(t4)-2,len(t5)-2,'rows')
